@@ -114,6 +114,19 @@ var c10BuiltinVictims = []string{
 	`{ print num("3") * 2 }`,
 }
 
+var c10ResultAssigners = []string{
+	`{ (($.n == 0))--; x = ($.n == 0); print x }`,
+	`BEGIN { n = 0; (n == 0)--; (n != 0)++; (!n)++; (n < 1)--; ("a" ~ "a")++; (n is number)--; (1 && 1)--; (0 || 0)++ }`,
+	`{ match ($.n == 0) { b => { b = "vip"; print b } } print ($.n == 0), ($.n != 0) }`,
+	`{ match ($.n < 5) { t => { t = 0 } } match (!1) { f => { f = [1, 2, 3]; f.push(4) } } }`,
+	`BEGIN { (1 + 1)++; ("a" + "b")--; (-1)++; x = 1 + 1; print x }`,
+}
+
+var c10BooleanVictims = []string{
+	`BEGIN { print 1 < 2, 2 < 1, 1 == 1, 1 != 1, !0, !1, "a" ~ "a", "a" !~ "a", 1 is number, 1 is string, 1 && 1, 0 || 0 }`,
+	`{ if ($.n == 0) { print "zero" } else { print "nonzero" } x = ($.n == 1); print x }`,
+}
+
 func c10Keys(c *Ctx, n int) []procKey {
 	rng := rand.New(rand.NewSource(c.Seed*104729 + 7))
 	var keys []procKey
@@ -149,6 +162,18 @@ func c10Keys(c *Ctx, n int) []procKey {
 		sb.WriteString(tail)
 		add(`{ print $.id, $.v } END { print "end" }`, nil, sb.String(), false)
 		add(`{ n++; print n, $ }`, nil, strings.Repeat("[1,2,3] ", 150)+tail, false)
+	}
+	// inputs whose first bytes matter to the decoder (byte order mark, leading blanks, a number split by a read)
+	for _, in := range []string{"\xef\xbb\xbf[1, 2]", "\xef\xbb\xbf{\"a\": 1} 2", "\xef\xbb", "\xef\xbb\xbf", "  \n [1, 2]", "12345 678", "tru", "\"ab\\u00e9\" 1", "\xff\xfe[1]"} {
+		add(`{ print $ } END { print "end" }`, nil, in, false)
+	}
+	// results of operators used as assignment targets: every evaluation has a result of its own
+	for _, p := range c10ResultAssigners {
+		add(p, nil, `[{"n":0},{"n":1}]`, false)
+	}
+	for _, p := range c10BooleanVictims {
+		add(p, nil, `[{"n":0},{"n":1}]`, false)
+		add(p, []string{"match ($[0].n == 0) { b => { b = \"vip\" } }", "$"}, `[{"n":0},{"n":1}]`, false)
 	}
 	for _, p := range c10Polluters {
 		add(p, nil, `[1]`, true)
@@ -237,8 +262,13 @@ func checkC10(c *Ctx) {
 	}
 	keys := c10Keys(c, nkeys)
 	rng := rand.New(rand.NewSource(c.Seed + 99))
+	// the way the input bytes arrive (one read, byte by byte, in small pieces) is not part of the key: it varies
+	// from one repetition of a key to the next
+	chunkings := [][]int{nil, {1}, {1, 1, 1, 1, 1, 1, 1, 1}, {2, 1}, {3}, {1, 2}, {5, 1, 1}, {2}}
+	occ := 0
 	mkJob := func(k procKey) Job {
-		return Job{Kind: "run", Prog: []byte(k.prog), Sels: k.sels, Files: []FileIn{{Name: "in.json", Data: []byte(k.input)}}, WantJS: true, Fuzzing: true, Budget: 200000}
+		occ++
+		return Job{Kind: "run", Prog: []byte(k.prog), Sels: k.sels, Files: []FileIn{{Name: "in.json", Data: []byte(k.input), Chunks: chunkings[occ%len(chunkings)]}}, WantJS: true, Fuzzing: true, Budget: 200000}
 	}
 	// histories: two worker processes, each executing every key `reps` times in a random order
 	pool := NewPool(2, 0)
@@ -313,11 +343,35 @@ func checkC10(c *Ctx) {
 		for _, s := range k.sels {
 			args = append(args, "-r", s)
 		}
-		args = append(args, "-o", "-", k.prog, "in.json")
+		toFile := b%2 == 1
+		if toFile {
+			args = append(args, "-o", "out.json", k.prog, "in.json")
+		} else {
+			args = append(args, "-o", "-", k.prog, "in.json")
+		}
 		for r := 0; r < binReps; r++ {
+			outPath := filepath.Join(sub, "out.json")
+			if toFile {
+				// what an unrelated earlier run left in the output file is not part of the key either
+				switch r % 3 {
+				case 0:
+					os.Remove(outPath)
+				case 1:
+					os.WriteFile(outPath, []byte(strings.Repeat("[\"left over from an earlier run\"]\n", 40)), 0o644)
+				default:
+					os.WriteFile(outPath, []byte("{}"), 0o644)
+				}
+			}
 			br := c.RunBin(args, nil, sub, 10e9)
 			if br.TimedOut {
 				return
+			}
+			if toFile {
+				fb, _ := os.ReadFile(outPath)
+				if br.Exit != 0 {
+					fb = nil // what a failed run leaves in the file is not fixed by the statement
+				}
+				br.Stdout = append(append(br.Stdout, []byte("\x00-o:")...), fb...)
 			}
 			cls := "ok"
 			if br.Exit != 0 {
